@@ -99,6 +99,15 @@ check('C17',
       'Recording clock/output; device state reset between jobs of a pair; canonical parser state = all Parser/Context/CodeGen fields not reset by parse().',
       'DESIGN.md C17')
 
+check('C19',
+      'bounded-exhaustive enumeration of output-statement sequences and format strings under the production stdout binding vs reference text',
+      'Every sequence of <=3 (thorough 4) statements over a 24-statement alphabet (print/println/printf with every value kind, a device command) and '
+      'every format string of <=3 fields over auto/numbered/named-register/named-variable x 5 specs x separators, run with std_out_output.configure() '
+      'and sys.stdout captured into the ordered request log: text must match the documented text (str(), single spaces, println ends the line, '
+      'str.format), and output must be ordered with device commands as in the source.',
+      'White space at printf junctions and the final line break are not compared; formats str.format rejects are skipped.',
+      'DESIGN.md C19')
+
 NOT_YET = 'check not built yet in this session (design in DESIGN.md); will be claimed when its command exists'
 
 
